@@ -21,6 +21,10 @@ import (
 //       the real newShuffleShardHashring (hook) with cache size <cap>; the tenants of <reqs> are asked in
 //       order through getTenantShardCached; answer per request: the sorted positions of the nodes of the
 //       tenant's sub-ring | toobig | toofew | stuck
+//   shardr <za> <rf> <cap> <epsA> <dfltA> <ovsA> <reqsA> <epsB> <dfltB> <ovsB> <reqsB1> <reqsB2>
+//       a configuration update: requests on ring A, ring B (overrides / default size / nodes / nothing changed)
+//       built with the same registerer and name while A is open, requests on B, A closed, requests on B;
+//       every answer of B must be what B built on its own answers (stale-after-reload)
 //   shardg <za> <rf> <eps> <big> <dflt> <ovs> <req> <series>
 //       one tenant end to end: selection on the base ring, the REAL sub-ring (1000 sections per selected node;
 //       <big> carries their hashes for the model) and GetN(0..rf-1) of the shuffle shard ring for series of
@@ -181,6 +185,12 @@ type shardSetup struct {
 }
 
 func (s shardSetup) wrap(eps []epSpec) (receive.VerifShuffleShard, error) {
+	return s.wrapWith(eps, prometheus.NewRegistry(), "verif")
+}
+
+// wrapWith builds the shuffle shard ring with a given registerer and hashring name (a replacement
+// ring of a configuration update uses the registerer and name of the ring it replaces).
+func (s shardSetup) wrapWith(eps []epSpec, reg prometheus.Registerer, name string) (receive.VerifShuffleShard, error) {
 	spn := 0
 	if len(eps) > 0 {
 		spn = len(eps[0].hashes)
@@ -194,7 +204,7 @@ func (s shardSetup) wrap(eps []epSpec) (receive.VerifShuffleShard, error) {
 		cfg.Overrides = append(cfg.Overrides, receive.ShuffleShardingOverrideConfig{
 			ShardSize: o.size, Tenants: o.tenants, TenantMatcherType: receive.VerifTenantMatcher(o.matcher())})
 	}
-	return receive.VerifNewShuffleShard(base, cfg, uint64(s.rf), prometheus.NewRegistry(), "verif")
+	return receive.VerifNewShuffleShard(base, cfg, uint64(s.rf), reg, name)
 }
 
 // nodesOf answers the sorted positions (in eps) of the nodes of a sub-ring, or the error class.
@@ -232,6 +242,9 @@ func execC21(v *vctx, tok []string) string {
 	}
 	if tok[0] == "shardg" {
 		return execShardG(v, tok)
+	}
+	if tok[0] == "shardr" {
+		return execShardR(v, tok)
 	}
 	if tok[0] != "shard" || len(tok) != 8 {
 		return "bad-op"
@@ -407,6 +420,131 @@ func execC21(v *vctx, tok []string) string {
 	return hlib.Join(answers, ";")
 }
 
+// shardr <za> <rf> <cap> <epsA> <dfltA> <ovsA> <reqsA> <epsB> <dfltB> <ovsB> <reqsB1> <reqsB2>
+// A configuration update as cmd/thanos/receive.go performs it: requests on ring A; ring B is built with
+// the SAME registerer and hashring name while A is still open; requests B1 on B; A is closed; requests B2
+// on B.  Oracle: every answer of B is what a B built on its own (fresh registerer) answers
+// (stale-after-reload) and has the size B's configuration asks for (shard-size-wrong).
+func execShardR(v *vctx, tok []string) string {
+	if len(tok) != 13 {
+		return "bad-op"
+	}
+	rf, err1 := strconv.Atoi(tok[2])
+	capa, err2 := strconv.Atoi(tok[3])
+	if err1 != nil || err2 != nil || (tok[1] != "0" && tok[1] != "1") || capa < 1 {
+		return "bad-op"
+	}
+	za := tok[1] == "1"
+	parseSide := func(epsTok, dfltTok, ovsTok string) (shardSetup, bool) {
+		eps, ok1 := parseEps(epsTok)
+		dflt, err := strconv.Atoi(dfltTok)
+		ovs, ok2 := parseShardOvs(ovsTok)
+		if !ok1 || !ok2 || err != nil || len(eps) == 0 {
+			return shardSetup{}, false
+		}
+		return shardSetup{za: za, rf: rf, capa: capa, eps: eps, dflt: dflt, ovs: ovs}, true
+	}
+	sa, okA := parseSide(tok[4], tok[5], tok[6])
+	sb, okB := parseSide(tok[8], tok[9], tok[10])
+	if !okA || !okB {
+		return "bad-op"
+	}
+	tenantsOf := func(s shardSetup, reqs string) ([]string, bool) {
+		var out []string
+		for _, r := range hlib.Split(reqs, ";") {
+			p := strings.Split(r, ":")
+			if len(p) != 3 {
+				return nil, false
+			}
+			b, err := hlib.UnHex(p[0])
+			if err != nil {
+				return nil, false
+			}
+			if shardReqToken(s.za, s.eps, s.ovs, string(b)) != r {
+				v.Violation("harness-rand-input", fmt.Sprintf("tenant %q: glob tables / random positions of the op line differ from filepath.Match / math/rand", string(b)))
+				return nil, false
+			}
+			out = append(out, string(b))
+		}
+		return out, true
+	}
+	ta, ok1 := tenantsOf(sa, tok[7])
+	tb1, ok2 := tenantsOf(sb, tok[11])
+	tb2, ok3 := tenantsOf(sb, tok[12])
+	if !ok1 || !ok2 || !ok3 {
+		return "bad-input"
+	}
+	idxOf := func(eps []epSpec) map[string]int {
+		m := map[string]int{}
+		for i, e := range eps {
+			m[e.addr] = i
+		}
+		return m
+	}
+	idxA, idxB := idxOf(sa.eps), idxOf(sb.eps)
+	reg := prometheus.NewRegistry()
+	ringA, err := sa.wrapWith(sa.eps, reg, "h")
+	if err != nil {
+		return classifyBuildErr(err)
+	}
+	ask := func(r receive.VerifShuffleShard, idx map[string]int, ts []string) []string {
+		out := make([]string, len(ts))
+		for i, t := range ts {
+			h, err := r.TenantShardCached(t)
+			out[i], _ = nodesOf(h, err, idx)
+		}
+		return out
+	}
+	ansA := ask(ringA, idxA, ta)
+	ringB, err := sb.wrapWith(sb.eps, reg, "h") // A is still open
+	if err != nil {
+		ringA.Ring().Close()
+		return classifyBuildErr(err)
+	}
+	ansB1 := ask(ringB, idxB, tb1)
+	ringA.Ring().Close()
+	ansB2 := ask(ringB, idxB, tb2)
+	// what B answers on its own
+	fresh, err := sb.wrap(sb.eps)
+	if err == nil {
+		zoneCount := map[string]int{}
+		for _, e := range sb.eps {
+			if za {
+				zoneCount[e.az]++
+			} else {
+				zoneCount[""]++
+			}
+		}
+		check := func(ts, got []string, when string) {
+			for i, t := range ts {
+				h, err := fresh.TenantShard(t)
+				want, nodes := nodesOf(h, err, idxB)
+				if want != got[i] {
+					v.Violation("stale-after-reload", fmt.Sprintf("tenant %q %s: the replacement ring answers %s, the same configuration built on its own answers %s", t, when, got[i], want))
+					return
+				}
+				if nodes != nil {
+					size := expectedShardSize(sb.dflt, sb.ovs, t, true)
+					total := size
+					if za {
+						total = ceilDiv(size, len(zoneCount)) * len(zoneCount)
+					}
+					if len(nodes) != total {
+						v.Violation("shard-size-wrong", fmt.Sprintf("tenant %q %s: %d nodes, the new configuration asks for %d", t, when, len(nodes), total))
+						return
+					}
+				}
+			}
+		}
+		check(tb1, ansB1, "while the old ring is open")
+		check(tb2, ansB2, "after the old ring was closed")
+		fresh.Ring().Close()
+	}
+	ringB.Ring().Close()
+	v.Count("shardr:ok")
+	return hlib.Join(ansA, ";") + " " + hlib.Join(ansB1, ";") + " " + hlib.Join(ansB2, ";")
+}
+
 // shardg <za> <rf> <eps> <big> <dflt> <ovs> <req> <series>: one tenant end to end through the real
 // shuffle shard ring: selection, sub-ring with the production section count, GetN for series of
 // that tenant; answered in positions of eps.
@@ -538,6 +676,10 @@ func execShardCfg(v *vctx, tok []string) string {
 
 var shardTenants = []string{"tenant-1", "tenant-2", "special-tenant", "prefix-tenant", "prefix-a", "a", "", "team/x", "t\x00z", "big", "x*"}
 
+func epsSpecOf(addr, az string, spn int) epSpec {
+	return epSpec{addr: addr, az: az, hashes: sectionHashes(addr, spn)}
+}
+
 func genC21(c *hlib.Ctx) {
 	r := c.R
 	ls := allLayouts(12, 3)
@@ -618,6 +760,89 @@ func genC21(c *hlib.Ctx) {
 			zaTok = "1"
 		}
 		c.Do(fmt.Sprintf("shard %s %d %d %s %d %s %s", zaTok, rf, capa, showEps(eps), dflt, showShardOvs(ovs), strings.Join(reqs, ";")), true)
+	}
+	// configuration updates: ring A, then ring B with the same registerer and name and a changed configuration
+	for i := 0; i < c.N(60, 700) && !gaveUp(); i++ {
+		l := pickLayout(r, ls, 9)
+		for l.total() < 3 {
+			l = pickLayout(r, ls, 9)
+		}
+		n := l.total()
+		za := r.Chance(2, 3)
+		epsA := materialise(r, l, []int{1, 2, 3}[r.Intn(3)])
+		minZone := n
+		for _, x := range l {
+			if x < minZone {
+				minZone = x
+			}
+		}
+		maxS := n
+		if za {
+			maxS = minZone * len(l)
+		}
+		dfltA := r.Range(1, maxS)
+		rf := r.Range(1, 2)
+		for !l.canBalance(rf) {
+			rf--
+		}
+		pool := make([]string, r.Range(2, 5))
+		for k := range pool {
+			pool[k] = r.Pick([]string{"tenant-1", "tenant-2", "big-tenant", "big-2", "special", "a", "prefix-a"})
+		}
+		var ovsA []shardOv
+		for k := r.Intn(3); k > 0; k-- {
+			o := shardOv{typ: r.Pick([]string{"e", "g", "x"}), size: r.Range(1, maxS)}
+			if o.typ == "g" {
+				o.tenants = []string{r.Pick([]string{"big-*", "tenant-?", "*", "prefix-*"})}
+			} else {
+				o.tenants = []string{r.Pick(pool)}
+			}
+			ovsA = append(ovsA, o)
+		}
+		epsB, dfltB := epsA, dfltA
+		ovsB := append([]shardOv(nil), ovsA...)
+		kind := r.Pick([]string{"overrides", "overrides", "default", "nodes", "none"})
+		switch kind {
+		case "overrides":
+			switch {
+			case len(ovsB) > 0 && r.Bool():
+				ovsB = ovsB[1:] // an override is removed
+			case len(ovsB) > 0 && r.Bool():
+				ovsB[0].size = 1 + ovsB[0].size%maxS // the size of an override changes
+			default: // an override is added in front, by glob or by name
+				o := shardOv{typ: "g", size: r.Range(1, maxS), tenants: []string{r.Pick([]string{"big-*", "tenant-?", "*"})}}
+				if r.Bool() {
+					o = shardOv{typ: "e", size: r.Range(1, maxS), tenants: []string{r.Pick(pool)}}
+				}
+				ovsB = append([]shardOv{o}, ovsB...)
+			}
+		case "default":
+			dfltB = 1 + dfltA%maxS
+		case "nodes":
+			epsB = append([]epSpec(nil), epsA...)
+			k := r.Intn(n)
+			a := fmt.Sprintf("replacement-%d:10901", r.Intn(1000))
+			epsB[k] = epsSpecOf(a, epsA[k].az, len(epsA[k].hashes))
+		}
+		capa := r.Range(1, 4)
+		if r.Chance(1, 3) {
+			capa = 100
+		}
+		mk := func(eps []epSpec, ovs []shardOv, k int) string {
+			reqs := make([]string, k)
+			for j := range reqs {
+				reqs[j] = shardReqToken(za, eps, ovs, r.Pick(pool))
+			}
+			return hlib.Join(reqs, ";")
+		}
+		zaTok := "0"
+		if za {
+			zaTok = "1"
+		}
+		c.Count("shardr-gen:" + kind)
+		c.Do(fmt.Sprintf("shardr %s %d %d %s %d %s %s %s %d %s %s %s", zaTok, rf, capa,
+			showEps(epsA), dfltA, showShardOvs(ovsA), mk(epsA, ovsA, r.Range(2, 8)),
+			showEps(epsB), dfltB, showShardOvs(ovsB), mk(epsB, ovsB, r.Range(1, 6)), mk(epsB, ovsB, r.Range(0, 6))), true)
 	}
 	// end to end with the production section count of the sub-ring: selection, sub-ring, GetN
 	for i := 0; i < c.N(12, 80) && !gaveUp(); i++ {
